@@ -109,6 +109,19 @@ impl Mempool {
             "add transaction if validates : {:?}",
             transaction.signature.to_hex()
         );
+        // fee, rebroadcast and SPV transactions are only ever created by the block
+        // producer itself, they are never accepted from outside
+        if matches!(
+            transaction.transaction_type,
+            TransactionType::Fee | TransactionType::ATR | TransactionType::SPV
+        ) {
+            debug!(
+                "transaction of type {:?} not accepted into the mempool : {:?}",
+                transaction.transaction_type,
+                transaction.signature.to_hex()
+            );
+            return;
+        }
         let public_key;
         let tx_valid;
         {
